@@ -558,7 +558,7 @@ fn source_scan() -> Value {
         }
     }
     let mut files = Vec::new();
-    walk(std::path::Path::new("/repo/src"), &mut files);
+    walk(&std::path::Path::new(&crate::engine::repo_dir()).join("src"), &mut files);
     files.sort();
     for f in files {
         if f.ends_with("verif_hooks.rs") {
